@@ -134,9 +134,21 @@ def run(tier):
                         tag += "/mid" if dg.get("mid") else "/near" if dg.get("lastNear") else "/f32" if dg.get("lastF32") else ""
                     if cl == "count" and w["n"] == 0:
                         tag += "/empty"
+                    if cl in ("err", "perr"):
+                        ww = dg.get("worst" if cl == "err" else "pworst", {})
+                        pm = ww.get("pm", 0)
+                        tag += "/x%s" % ("1000+" if pm >= 999999 else "10+" if pm >= 10000 else "2+" if pm >= 2000 else "1+")
+                        # diagnosis labels: the worst point lies on a segment of the minimal length the approximator keeps /
+                        # within 2e-3 of a pole or vertical tangent of the function
+                        tag += "/minstep" if ww.get("minstep") else "/sing" if ww.get("sing") else "/seg" if float(ww.get("seglen", 0)) > 0 else "/point"
+                    extra = ""
+                    if cl in ("err", "perr"):
+                        ww = dg.get("worst" if cl == "err" else "pworst", {})
+                        extra = "; measured deviation %.3f x allowed at x=%s: f=%s, approximation=%s" % (
+                            ww.get("pm", 0) / 1000.0, ww.get("t"), ww.get("f"), ww.get("pl"))
                     v.violation("%s:%s" % (tag, case_key(k)),
-                                "clause '%s' violated by the result of PLApproximate %s (%d breakpoints%s)" %
-                                (tag, inp, w["n"], ", periodic" if w["per"] else ""), payload)
+                                "clause '%s' violated by the result of PLApproximate %s (%d breakpoints%s)%s" %
+                                (tag, inp, w["n"], ", periodic" if w["per"] else "", extra), payload)
             elif w["k"] == "throw":
                 v.violation("throw/%s:%s" % (w["kind"], case_key(k)),
                             "PLApproximate %s ended with an undiagnosed exception: %s" % (inp, e.get("what", "")), payload)
